@@ -21,6 +21,10 @@ type simReq struct {
 	Env   []simEnv `json:"env"`
 	Ticks int      `json:"ticks"`
 	Dump  string   `json:"dump,omitempty"` // "full" (default) | "ext"
+	// reactive environment (C02): per external input the stream of values offered one at a time
+	// (data with valid until received, then valid dropped until received falls); outputs are
+	// acknowledged by echoing valid.  When set, Env is ignored.
+	Streams [][]uint64 `json:"streams,omitempty"`
 }
 
 type simProc struct {
@@ -147,8 +151,42 @@ func runSim(q *simReq) (res simRes) {
 	}
 	vm.Launch_processors(nil)
 	full := q.Dump != "ext"
+	pos := make([]int, len(q.Streams))
+	wait := make([]bool, len(q.Streams))
 	for t := 0; t < q.Ticks; t++ {
-		if t < len(q.Env) {
+		if q.Streams != nil {
+			for i := range q.Streams {
+				if i >= len(vm.Inputs_regs) {
+					continue
+				}
+				recv := vm.InputsRecv[i]
+				if wait[i] {
+					if recv {
+						vm.InputsValid[i] = false
+					} else if pos[i] < len(q.Streams[i]) {
+						wait[i] = false
+						vm.Inputs_regs[i] = typed(bm.Rsize, q.Streams[i][pos[i]])
+						vm.InputsValid[i] = true
+					} else {
+						vm.InputsValid[i] = false
+					}
+				} else if pos[i] < len(q.Streams[i]) {
+					if recv {
+						pos[i]++
+						wait[i] = true
+						vm.InputsValid[i] = false
+					} else {
+						vm.Inputs_regs[i] = typed(bm.Rsize, q.Streams[i][pos[i]])
+						vm.InputsValid[i] = true
+					}
+				} else {
+					vm.InputsValid[i] = false
+				}
+			}
+			for o := range vm.OutputsRecv {
+				vm.OutputsRecv[o] = vm.OutputsValid[o]
+			}
+		} else if t < len(q.Env) {
 			e := q.Env[t]
 			for i, iv := range e.In {
 				if i < len(vm.Inputs_regs) {
